@@ -706,6 +706,16 @@ def suite_c07(tier):
                     emit_twin(flip(p, r.sample(range(nbits), 2)), "tflip2")
                     i = r.randrange(len(p))
                     emit_twin(p[:i] + bytes([p[i] ^ r.randrange(1, 256)]) + p[i + 1:], "tsubst")
+                # the two CRC bytes exchanged (a device that sends the CRC high byte first; a 16-bit burst)
+                if kind == "rtu" and p[-1] != p[-2]:
+                    sw = p[:-2] + p[-1:] + p[-2:-1]
+                    emit(sw, "crcswap", every=True)
+                    emit_multi(sw, "crcswap")
+                    emit_twin(sw, "crcswap")
+                elif kind == "bin" and len(p) > 4 and p[-2] != p[-3]:
+                    sw = p[:-3] + p[-2:-1] + p[-3:-2] + p[-1:]
+                    emit(sw, "crcswap", every=True)
+                    emit_multi(sw, "crcswap")
                 emit_multi(p[:-1], "mtruncate")
                 emit_multi(p + bytes([r.randrange(256)]), "mextend")
                 # every single-bit flip
